@@ -79,16 +79,23 @@ def run(res, a):
             res.violation("corr:" + mism[0].split()[2], "model/implementation disagreement (%d records), e.g. %s" % (len(mism), mism[0]), witness=None)
         elif mism:
             log("[corr] %d model/implementation disagreements, e.g. %s" % (len(mism), mism[0]))
+    # the clause "mi_good_size(n) equals the usable size of mi_malloc(n)" also on dirty heaps / arbitrary histories
+    try:
+        import apitrace
+        k = 3 if a.tier == "thorough" else 1
+        apitrace.run_traces(res, "C16", [("boundary", 8 * k, 400), ("fillfree", 4 * k, 400), ("heaps", 3 * k, 300), ("realloc", 3 * k, 300)], a.seed, dump=False)
+    except ImportError:
+        pass
     fcount = collections.Counter(l.split()[1] for l in fl)
-    res.cov["evaluations"] = len(fl) + len(tl)
-    res.cov["distinct_nontrivial"] = len(set(fl)) + len(set(tl))
+    res.cov["evaluations"] += len(fl) + len(tl)
+    res.cov["distinct_nontrivial"] += len(set(fl)) + len(set(tl))
     res.cov["rule"] = ("F records: real function results compared with the extracted Coq model (exhaustive for sizes 0..2*MI_MEDIUM_OBJ_SIZE_MAX, "
                        "all bins, all slice counts; boundary + PRNG values up to 2^64); T records: property oracle on the implementation "
                        "(block >= request, monotone, fragmentation, good_size, exact quotient, unalign/page lookup on real blocks of every class). "
                        "distinct = distinct record lines")
-    res.cov["traces_validated_against_impl"] = len(fl)
-    res.cov["disagreements_checked"] = len(mism)
-    res.cov["input_distribution"] = {"F": dict(fcount), "T": dict(tcount)}
+    res.cov["traces_validated_against_impl"] += len(fl)
+    res.cov["disagreements_checked"] += len(mism)
+    res.cov.setdefault("input_distribution", {}).update({"F": dict(fcount), "T": dict(tcount)})
     res.cov["exhaustive"] = False
     res.add_samples([fl[0], fl[len(fl) // 2], fl[-1], tl[0], tl[len(tl) // 2], tl[-1]])
     res.assumptions += ["the 64-bit Linux release configuration (MI_ALIGN2W, MI_PADDING=0)", "gcc builtins clz/ctz/umull_overflow behave as modelled (checked by the F records)"]
